@@ -916,6 +916,8 @@ def run(ctx):
                "for earlier years, is not established); earlier/later days go through util.Date (integer literal)")
     ctx.assume("time-of-day values with tzinfo, Decimal NaN/Infinity, lone surrogates, integers beyond Python's str() digit limit, None inside "
                "collections (rejected by Cassandra in literals), generators, geometry types and float targets narrower than double are not generated")
+    ctx.assume("float / decimal literals with an exponent (1e+22, 5e-324, 1E-7) are read by Cassandra's FLOAT token rule (digits, optional "
+               "fraction, [eE][+-]digits) and converted with java.lang.Double.valueOf / new BigDecimal(text), which accept exactly these forms")
     ctx.assume("a NaN parameter must read back as NaN (payload bits are not compared); set / map literals are compared without regard to order")
     ctx.assume("a tuple parameter is judged against the list literal the plain Encoder documents for it (mapping[tuple] -> list collection)")
     rng = ctx.rng
